@@ -223,10 +223,10 @@ text=("Model of Glob (component loop, literal fast path, directory scan with the
     "C19": dict(
         text=("Proved: Option.String is total on every bit combination (loop bound translated from the source on every run); the model of Eval "
               "(tokenizer, parser, evaluator) ends with a number or a documented error on every source text and every environment, never at a panic "
-              "site and never out of fuel (C19_eval_total), the model being compared with interp.Eval on every run; the model of Expand never reaches "
-              "a panic site on words shaped as the parser builds them (C19_expand_never_panics: every environment, mode and recursion budget; the "
-              "shape is checked by the harness on every word of every accepted source). NOT proved: totality of printer / Pos / End on "
-              "parser-produced ASTs, of Match / Glob on arbitrary strings, and that Expand's recursion budget suffices; decided on every run in isolated workers: every "
+              "site and never out of fuel (C19_eval_total), the model being compared with interp.Eval on every run; the model of Expand is total on words "
+              "shaped as the parser builds them (C19_expand_total: for every environment and mode it ends with fields or a documented error -- no "
+              "panic site is reached and the recursion budget 4*(size+1) always suffices; the shape is checked by the harness on every word of "
+              "every accepted source). NOT proved: totality of printer / Pos / End on parser-produced ASTs and of Match / Glob on arbitrary strings; decided on every run in isolated workers: every "
               "accepted source among all strings <=3 significant characters, an oddities corpus and generated programs through Pos/End of every node, "
               "Fprint x 256 Configs, Expand x 8 modes x 3 option sets x 2 argument vectors; Eval / Match (16 modes) / Glob on all strings <=2 symbols "
               "over a 31-symbol alphabet plus random longer ones; all 2^14 Option values."),
